@@ -122,6 +122,8 @@ def run_case(case, ctx):
         return _run_reuse(case, ctx)
     if case.get("alias"):
         return _run_alias(case, ctx)
+    if case.get("sizeof_history"):
+        return _run_sizeof_history(case, ctx)
     cs = common.load(case)
     _check_layout(case, ctx, cs, "Root", "SizeProbe")
 
@@ -399,6 +401,58 @@ def _run_alias(case, ctx):
         ctx.sample({"alias": name, "size": size, "offsets": want}, "alias")
 
 
+@st.composite
+def sizeof_history_case(draw):
+    kinds = ["uint8", "uint16", "uint32", "uint64", "uint24", "char[3]", "uint16[2]"]
+    return {"sizeof_history": True, "first": [draw(st.sampled_from(kinds)) for _ in range(draw(st.integers(1, 3)))], "added": [draw(st.sampled_from(kinds)) for _ in range(draw(st.integers(1, 2)))],
+            "align": draw(st.booleans()), "compiled": draw(st.booleans()), "n": draw(st.integers(1, 3)), "form": draw(st.sampled_from(["sizeof(Hdr) * n", "n * sizeof(Hdr)", "sizeof(Hdr) + n", "n + sizeof(Hdr) - 1"])),  # data-dependent counts only: a constant count is fixed at declaration
+            "how": draw(st.sampled_from(["add_field", "replace"]))}
+
+
+def _run_sizeof_history(case, ctx):
+    """sizeof(T) inside an expression agrees with len(T) every time the expression is evaluated, also after T grew."""
+    from pbt.drive import import_repo
+
+    m = import_repo()
+    cs = m.cstruct()
+    body = " ".join(f"{k.split('[')[0]} h{i}{'[' + k.split('[')[1] if '[' in k else ''};" for i, k in enumerate(case["first"]))
+    r = lib(cs.load, f"struct Hdr {{ {body} }};\nstruct Use {{ uint8 n; uint8 raw[{case['form']}]; uint8 t; }};", compiled=case["compiled"], align=case["align"])
+    if isinstance(r, Err):
+        raise Violation("definition-rejected", f"{r}", r.where)
+
+    def expect(n):
+        size = len(cs.Hdr)
+        return {"sizeof(Hdr) * n": size * n, "n * sizeof(Hdr)": n * size, "sizeof(Hdr) + n": size + n, "n + sizeof(Hdr) - 1": n + size - 1}[case["form"]]
+
+    def probe(label):
+        for n in (case["n"], case["n"] + 1):
+            want = expect(n)
+            data = bytes([n]) + bytes(range(1, want + 1)) + b"\xee" + bytes(8)
+            o = lib(cs.Use, data)
+            if isinstance(o, Err) or len(o.raw) != want or o.t != 0xEE:
+                raise Violation("size-disagreement:number", f"{label}: Use with n={n}: raw has {o if isinstance(o, Err) else len(o.raw)!r} elements (t={getattr(o, 't', None)!r}); raw[{case['form']}] with len(Hdr)={len(cs.Hdr)} gives {want}; Hdr = {case['first']} then {case['added']} ({case['how']}), compiled={case['compiled']}, align={case['align']}")
+
+    probe("before Hdr changes")
+    before = len(cs.Hdr)
+    if case["how"] == "add_field":
+        for i, k in enumerate(case["added"]):
+            t = getattr(cs, k.split("[")[0])
+            if "[" in k:
+                t = t[int(k.split("[")[1][:-1])]
+            cs.Hdr.add_field(f"x{i}", t)
+    else:
+        body2 = body + " " + " ".join(f"{k.split('[')[0]} x{i}{'[' + k.split('[')[1] if '[' in k else ''};" for i, k in enumerate(case["added"]))
+        cs2 = m.cstruct()
+        cs2.load(f"struct Hdr {{ {body2} }};", align=case["align"])
+        cs.add_type("Hdr", cs._make_struct("Hdr", [m.Field(f.name, getattr(cs, f.type.__name__.split('[')[0]) if "[" not in f.type.__name__ else getattr(cs, f.type.__name__.split('[')[0])[f.type.num_entries], bits=f.bits) for f in cs2.Hdr.__fields__], align=case["align"]), replace=True)
+    if len(cs.Hdr) <= before:
+        return
+    probe("after Hdr grew")
+    ctx.count("sizeof-history:" + case["how"])
+    ctx.mark_nontrivial(case)
+    ctx.sample({k: case[k] for k in ("first", "added", "form", "how")}, "sizeof-history")
+
+
 def selfcheck():
     """ctypes agrees with the reference layout on a fixed family (validity of the reference; exit 2 otherwise)."""
     for align in (False, True):
@@ -418,5 +472,6 @@ def stages(tier):
         EnumStage("sequences", seq_cases(3 if q else 4), shards=6 if q else 16, scope=f"all sequences of <= {3 if q else 4} fields over 12 base kinds x {{packed, aligned}}"),
         HypStage("nested", fixed_case, examples=500 if q else 4000, shards=8 if q else 16),
         HypStage("reuse", reuse_case, examples=300 if q else 2500, shards=4 if q else 8),
+        HypStage("sizeof-history", sizeof_history_case, examples=150 if q else 1500, shards=2),
         EnumStage("aliases", alias_cases, shards=2, scope="every fixed-width name of the built-in typedef table x {packed, aligned}: member, array element, sizeof"),
     ]
